@@ -43,7 +43,7 @@ def contracts():
     # how the items reach the aggregators: iteration of the target through the registry (shared with C15 / C13)
     from contracts import C15, C13
     cs += common.shared(C15, ['grouping.target_iter'])
-    cs += common.shared(C13, ['core.TargetRegistry.get_handler', 'core.TargetRegistry.get_type_map', 'core.TargetRegistry._get_closest_type'])
+    cs += common.shared(C13, ['core.TargetRegistry.get_handler', 'core.TargetRegistry.get_type_map', 'core.TargetRegistry._get_closest_type', 'core.TargetRegistry.register'])
     from contracts import X_ctor as _xc16
     cs += common.shared(_xc16, ['grouping.Limit.__init__', 'grouping.Group.__init__'])
     return cs
